@@ -350,8 +350,46 @@ class HealCtx(FsmCtx):
     soft = True
     regime_exit = False
 
+    def check_escapes(self, escapes, cell):
+        # an exception escaping from a callback is logged by the reactor and life goes on: whether the
+        # agent still heals afterwards is exactly this property's business.  Only a cut-off endless loop
+        # or an exit leaves nothing to judge.
+        hard = [e for e in escapes if e[0] != "exc"]
+        if escapes and not hard:
+            self.stats["exception_escaped_into_reactor(run continues)"] += len(escapes)
+            return
+        FsmCtx.check_escapes(self, hard, cell)
+
     def __init__(self, cfg, tier):
-        FsmCtx.__init__(self, cfg, tier)
+        if cfg.get("handler") == "default":
+            # some runs use the real DefaultHandler (message log on the simulated file system, small
+            # rotation threshold): the application side must not keep the session from healing
+            from sim import simfs
+            from sim.world import World
+            import collections
+            self.cfg = cfg
+            self.tier = tier
+            self.stats = collections.Counter()
+            self.cells = set()
+            self.trace = []
+            self.nontrivial = False
+            self.fs = simfs.SimFS()
+            self.world = World(cfg, fs=self.fs)
+            self.pos = len(self.world.log)
+            self.tx_off = {}
+            self.done = False
+            self.t0 = self.world.now()
+            from sim import model as _M
+            self.model = _M.Model(cfg)
+            self.rx = {}
+            self.rx_dead = set()
+            self.left_regime = False
+            self.target = None
+            self.as4 = {}
+            self.agent_as4 = {}
+            self.last_label = None
+        else:
+            FsmCtx.__init__(self, cfg, tier)
         self.coop = False
         self.first_open = None
         self.coop_ops = 0
@@ -457,9 +495,12 @@ class HealCtx(FsmCtx):
                     return None
         # 5. nothing to answer: let the agent's timers run (bounded by the liveness deadline + margin)
         nt = w.reactor.next_time()
-        if nt is None:
-            return None
         if self.t_estab is None and now > self.liveness_deadline() + 5:
+            return None
+        if nt is None:
+            # the agent has nothing scheduled at all: time passes nevertheless
+            if self.t_estab is None:
+                return ["advance", self.liveness_deadline() + 6 - now]
             return None
         return ["fire", 0]
 
@@ -492,6 +533,8 @@ class HealCtx(FsmCtx):
             self.cells.add("switch/%s" % self.model.phase)
             self.trace.append("switch/%s" % self.model.phase)
             self.stats["switch_in_" + w.state()] += 1
+            if self.cfg.get("handler") == "default":
+                self.stats["gen:default_handler_runs"] += 1
             if any(c.closing() for c in w.live_conns()):
                 self.stats["switch_during_close_completion"] += 1
             return
@@ -578,7 +621,7 @@ class HealProfile(FsmProfile):
             "peer turns cooperative: resets old connections, accepts connects within <=1 s, validates the agent's OPEN like a "
             "real router, answers with a valid OPEN and KEEPALIVEs every H/3 for 3 hold times; non-trivial = healed to "
             "Established; distinct = distinct prefix cell sequence + switch state")
-    probes = ["healed", "stayed_up_3H", "switch_in_IDLE", "switch_in_CONNECT", "switch_in_OPENSENT", "switch_in_OPENCONFIRM",
+    probes = ["gen:default_handler_runs", "healed", "stayed_up_3H", "switch_in_IDLE", "switch_in_CONNECT", "switch_in_OPENSENT", "switch_in_OPENCONFIRM",
               "switch_in_ESTABLISHED", "switch_during_close_completion", "ev:open_err6", "ev:open_hold0"]
 
     def gen_config(self, rng, idx, tier):
@@ -589,6 +632,13 @@ class HealProfile(FsmProfile):
         cfg["connect_latency"] = rng.pick([0.0, 0.1, 1.0])
         # bias: unacceptable / unusual OPENs in the prefix (the "poisoned value" class)
         cfg["peer_open"] = base.gen_open(rng, cfg, "valid", hold=cfg["peer_hold"]).hex()
+        if rng.chance(0.1):
+            cfg["handler"] = "default"
+            cfg["write_disk"] = True
+            cfg["write_keepalive"] = rng.chance(0.5)
+            cfg["rotate_bytes"] = rng.pick([200, 600, 2000])
+            if rng.chance(0.5):
+                cfg["remote_addr"] = "2001:DB8::2"
         return cfg
 
 
